@@ -27,26 +27,45 @@ struct Open {
 
 async fn run_case(rep: &mut Report, args: &Args, case_seed: u64) {
     let mut rng = Rng::new(case_seed);
-    let buckets = *rng.pick(&[1u16, 2, 4]);
-    let cfg = StoreCfg {
+    // 1 case in 8: 64 buckets on 64 writer threads (per-thread queue capacity max(1000/64, 16) = 16) with a crowd of
+    // clients on one partition, so that a writer's queue is full when the syncer polls it
+    let crowd = rng.chance(1, 8);
+    let buckets = if crowd { 64 } else { *rng.pick(&[1u16, 2, 4]) };
+    let mut cfg = StoreCfg {
         segment_size: *rng.pick(&[128 * 1024usize, 128 * 1024, 1024 * 1024]),
         buckets,
-        writer_threads: *rng.pick(&[1u16, buckets]),
+        writer_threads: if crowd { 64 } else { *rng.pick(&[1u16, buckets]) },
         reader_threads: 2,
         partitions: buckets,
         compression: rng.chance(1, 2),
-        sync_interval_ms: *rng.pick(&[1u64, 3, 10, 50, 200, 1000]),
+        // 0 = sync on every write, u64::MAX = Duration::MAX (no syncer thread in either case)
+        sync_interval_ms: *rng.pick(&[0u64, 1, 3, 10, 50, 200, 1000, u64::MAX]),
         sync_idle_ms: *rng.pick(&[1u64, 10, 50, 500]),
         max_batch: *rng.pick(&[1usize, 10, 50, 1000]),
         min_sync_bytes: *rng.pick(&[1usize, 4096, 65_536, 1 << 20]),
     };
+    if crowd && (1..10).contains(&cfg.sync_interval_ms) {
+        cfg.sync_interval_ms = 10; // 64 threads polled every millisecond in 16 parallel shards only measures the machine
+    }
+    if cfg.sync_interval_ms == u64::MAX {
+        // without a periodic sync only the batch thresholds trigger one: keep a threshold that every write reaches
+        cfg.max_batch = 1;
+    }
+    let no_syncer = cfg.sync_interval_ms == 0 || cfg.sync_interval_ms == u64::MAX;
     let dir = fresh_dir(&args.work, &format!("c20-{}-{case_seed}", args.shard));
     let Ok(db) = cfg.open(&dir) else { rep.inconclusive("open failed"); return; };
     hooks::clear_log();
     rep.evaluations += 1;
-    let clients = *rng.pick(&[1usize, 2, 8, 32, 64]);
+    let clients = if crowd { 100 + rng.usize_below(200) } else { *rng.pick(&[1usize, 2, 8, 32, 64]) };
     let per_client = (2 + rng.usize_below(10)).min(400 / clients + 2);
-    let keys = make_keys(&mut rng, cfg.partitions, 1);
+    let mut keys = make_keys(&mut rng, cfg.partitions, 1);
+    if crowd {
+        keys.truncate(1 + rng.usize_below(2));
+        rep.count("crowd_cases", 1);
+    }
+    if no_syncer {
+        rep.count("cases_without_syncer_thread", 1);
+    }
     let open: Arc<Mutex<BTreeMap<u64, Open>>> = Arc::new(Mutex::new(BTreeMap::new()));
     let done = Arc::new(AtomicU64::new(0));
     let lat_max = Arc::new(AtomicU64::new(0));
@@ -89,9 +108,14 @@ async fn run_case(rep: &mut Report, args: &Args, case_seed: u64) {
     let total = (clients * per_client) as u64;
     let t0 = Instant::now();
     let mut verdict_done = false;
+    let (mut last_len, mut last_event_at) = (0usize, Instant::now());
     while done.load(Ordering::Relaxed) < total {
         tokio::time::sleep(Duration::from_millis(20)).await;
         let log = hooks::snapshot_log();
+        if log.len() != last_len {
+            last_len = log.len();
+            last_event_at = Instant::now();
+        }
         let snapshot: Vec<(u128, u64, Duration)> = open.lock().unwrap().values().map(|o| (o.txn_id, o.inv, o.started.elapsed())).collect();
         for (txn_id, inv, age) in snapshot {
             let hi = (txn_id >> 64) as u64;
@@ -101,13 +125,24 @@ async fn run_case(rep: &mut Report, args: &Args, case_seed: u64) {
             if w.args[6] == 0 { continue; } // the write failed: the error is on its way
             let (b, seg, end) = (w.args[0], w.args[1], w.args[3]);
             // covering sync: fsync of that segment with offset >= end, or the segment sealed (a later txn_written of the bucket in a newer segment)
-            let cover = log.iter().enumerate().skip(wi).find(|(_, e)| (e.name == "fsync" && e.args[0] == b && e.args[1] == seg && e.args[2] >= end) || (e.name == "rollover.done" && e.args[0] == b && e.args[1] > seg));
+            // (searched over the whole log: a sync inside the write itself is logged before txn_written, and an
+            // fsync offset >= end can only have been reached after the write)
+            let cover = log.iter().enumerate().find(|(_, e)| (e.name == "fsync" && e.args[0] == b && e.args[1] == seg && e.args[2] >= end) || (e.name == "rollover.done" && e.args[0] == b && e.args[1] > seg));
             // progress of the writer thread that owns this bucket: its flush polls (one per syncer tick)
             let wthread = w.thread;
             let progress_after = |from: usize| log.iter().skip(from).filter(|e| e.name == "flush_poll" && e.thread == wthread).count();
             match cover {
                 Some((ci, _)) => {
                     let p = progress_after(ci + 1);
+                    // quiescence: the covering sync was observed, and for 15 s no hook event of any kind has
+                    // happened (no write, sync, poll or rollover anywhere): nothing is left that could complete
+                    // the append, and 15 s is far beyond scheduling noise of an idle process
+                    let now_tick_age = last_event_at.elapsed();
+                    if age > Duration::from_secs(15) && now_tick_age > Duration::from_secs(15) && log.len() == last_len && ci + 1 <= log.len() && !verdict_done
+                        && open.lock().unwrap().values().any(|o| o.txn_id == txn_id) {
+                        rep.violation("C20:not-completed-although-synced-and-quiescent", format!("append invoked at tick {inv} was written (bucket {b} segment {seg} end {end}), a covering sync was observed, nothing has happened in the store for {:?} and it still has not returned after {:?}", now_tick_age, age), witness.clone());
+                        verdict_done = true;
+                    }
                     if p > 200 && !verdict_done {
                         // still open? give the client task a scheduling chance first (the observation
                         // happens at the client boundary, which needs the task to run)
@@ -120,6 +155,25 @@ async fn run_case(rep: &mut Report, args: &Args, case_seed: u64) {
                 }
                 None => {
                     let p = log.iter().skip(wi).filter(|e| e.name == "flush_poll" && e.thread == wthread).count();
+                    // the store is quiescent (see above) and the append was never covered by a sync
+                    if age > Duration::from_secs(15) && last_event_at.elapsed() > Duration::from_secs(15) && !verdict_done
+                        && open.lock().unwrap().values().any(|o| o.txn_id == txn_id) {
+                        rep.violation("C20:no-covering-sync-and-quiescent", format!("append invoked at tick {inv} was written (bucket {b} segment {seg} end {end}), no sync covered it, nothing has happened in the store for {:?} and it has not returned after {:?}", last_event_at.elapsed(), age), witness.clone());
+                        verdict_done = true;
+                    }
+                    // the syncer keeps polling the other writer threads but never this one
+                    if p == 0 && !verdict_done {
+                        let mut per_thread: BTreeMap<u64, usize> = BTreeMap::new();
+                        for e in log.iter().skip(wi).filter(|e| e.name == "flush_poll" && e.thread != wthread) { *per_thread.entry(e.thread).or_default() += 1; }
+                        let ticks = per_thread.values().copied().max().unwrap_or(0);
+                        if ticks > 1000 {
+                            tokio::time::sleep(Duration::from_millis(200)).await;
+                            if open.lock().unwrap().values().any(|o| o.txn_id == txn_id) {
+                                rep.violation("C20:writer-thread-no-longer-polled", format!("append invoked at tick {inv} was written (bucket {b} segment {seg} end {end}) and is not covered by a sync; since then the syncer polled another writer thread {ticks} times and this one never; not returned after {:?}", age), witness.clone());
+                                verdict_done = true;
+                            }
+                        }
+                    }
                     if p > 400 && !verdict_done && open.lock().unwrap().values().any(|o| o.txn_id == txn_id) {
                         rep.violation("C20:no-covering-sync", format!("append invoked at tick {inv} was written (bucket {b} segment {seg} end {end}) but no sync covered it after {p} flush polls ({:?})", age), witness.clone());
                         verdict_done = true;
@@ -139,6 +193,9 @@ async fn run_case(rep: &mut Report, args: &Args, case_seed: u64) {
     for h in hs { h.abort(); }
     rep.count("appends_completed", done.load(Ordering::Relaxed));
     rep.max("append_latency_ms", lat_max.load(Ordering::Relaxed));
+    if lat_max.load(Ordering::Relaxed) > 5000 {
+        rep.note(format!("slow case: max append latency {} ms in {}", lat_max.load(Ordering::Relaxed), witness));
+    }
     rep.count("flush_polls_observed", hooks::snapshot_log().iter().filter(|e| e.name == "flush_poll").count() as u64);
     rep.count("fsyncs_observed", hooks::snapshot_log().iter().filter(|e| e.name == "fsync").count() as u64);
     rep.nontrivial(&(cfg.sync_interval_ms, cfg.sync_idle_ms, cfg.max_batch, cfg.min_sync_bytes, clients, cfg.buckets, cfg.writer_threads, cfg.segment_size));
